@@ -12,7 +12,7 @@ ID = 'C12'
 LEVEL = 'exploration'
 RUNS = {'quick': 16000, 'thorough': 300000}
 CHUNK = 40
-PROBES = ['boundary_subclass_event_kept', 'class_filter', 'subclass_filter', 'class_and_subclass', 'tid_filter', 'tid_and_class', 'empty_lists', 'tuple_filter',
+PROBES = ['filter_list_edited_in_place', 'boundary_subclass_event_kept', 'class_filter', 'subclass_filter', 'class_and_subclass', 'tid_filter', 'tid_and_class', 'empty_lists', 'tuple_filter',
           'filter_matches_nothing', 'log_listing', 'log_process_filter_by_name', 'log_process_filter_by_pid', 'log_tid_filter',
           'abandoned_listing_before', 'reconfigured_between_requests', 'v3_dump']
 RULE = ('one run = one long-lived PyKdebugParser, a history of 2..7 operations (reconfigure filters, abandoned listing, judged '
@@ -81,8 +81,14 @@ def generate(rng, index, tier):
                 procs += [inv[ev['p']] for ev in b['payload']['Events'] if 'p' in ev and ev['p'] in inv]
                 procs += [str(ev['pid']) for ev in b['payload']['Events'] if 'pid' in ev]
         r = rng.random()
-        if r < 0.35:
+        if r < 0.3:
             hist.append({'op': 'set', 'filters': _gen_filters(rng, d, sids, tids, procs)})
+        elif r < 0.4:
+            # the caller edits the lists it handed over, in place (append / remove), instead of assigning new ones
+            classes = sorted({i >> 24 for i in sids}) or [4]
+            subs = sorted({i >> 16 for i in sids}) or [0x40c]
+            hist.append({'op': 'mutate', 'which': rng.pick(['cls', 'sub']), 'how': rng.pick(['append', 'append', 'remove', 'clear']),
+                         'value': rng.pick(classes) if rng.chance(0.5) else rng.pick(subs)})
         elif r < 0.5:
             hist.append({'op': 'abandon', 'dump': di, 'what': rng.pick(['kevents', 'logs']), 'after': rng.randint(0, 3)})
         else:
@@ -145,6 +151,24 @@ def execute(scn):
     held = []
     for h in scn['history']:
         op = h['op']
+        if op == 'mutate':
+            lst = p.filter_class if h['which'] == 'cls' else p.filter_subclass
+            if isinstance(lst, list):
+                val = h['value'] if (h['which'] == 'cls') == (h['value'] < 256) else (h['value'] >> 8 if h['which'] == 'cls' else h['value'] << 8)
+                if h['how'] == 'append':
+                    lst.append(val)
+                elif h['how'] == 'remove' and lst:
+                    lst.pop(0)
+                elif h['how'] == 'clear':
+                    del lst[:]
+                cur = dict(cur)
+                cur['cls'] = list(p.filter_class)
+                cur['sub'] = list(p.filter_subclass)
+                cur['as_tuple'] = False
+                dirty = True
+                bump('probe:filter_list_edited_in_place')
+                bump('fault:reconfigure')
+            continue
         if op == 'set':
             cur = h['filters']
             apply_filters(p, cur)
